@@ -1,5 +1,5 @@
 From Coq Require Import List ZArith Bool.
-From SV Require Import Resolve.Op Resolve.Apply Resolve.Process Parser.Recommit Corr.Resolve.
+From SV Require Import Resolve.Op Resolve.Apply Resolve.Process Resolve.Intake Parser.Recommit Corr.Resolve.
 Import ListNotations.
 Local Open Scope Z_scope.
 
@@ -7,10 +7,7 @@ Local Open Scope Z_scope.
 Record dcase := { d_pub : list aop; d_refused : bool }.
 
 Definition decorator_must_refuse (pub : list aop) : bool :=
-  match resolve pub [] no_opts with
-  | OOk r => deact (r_state r)
-  | _ => true   (* resolution error: the decorator returns it *)
-  end.
+  match decorate pub [] with Refused => true | Accepted => false end.
 
 Definition check_dcase (c : dcase) : bool := implb (decorator_must_refuse (d_pub c)) (d_refused c).
 Definition dmismatches (base : nat) (l : list dcase) : list nat := mismatches_from check_dcase base l.
